@@ -51,6 +51,8 @@ static const plan *P;
 static int pc;
 static int cur;                       /* model: index of the current coroutine */
 static int expect_target; static void *expect_msg; static bool expect_entry;
+static int switch_kind;          /* how the switch under way was made: 0 start/resume/transfer, 1 yield, 2 exit/return/stop-self */
+static int in_kind[64];          /* per coroutine: how control last came to it */
 static bool stop_all;
 static uint64_t nswitch;
 
@@ -80,6 +82,8 @@ static void check_model(const char *where)
 static void after_switch_in(int me, void *got, uint64_t pat)
 {
     nswitch++;
+    if (me >= 0 && me < 64) in_kind[me] = switch_kind;
+    switch_kind = 0;
     if (shim_bad) {
         viol("C03", "callee-saved-register", "coroutine %d: %s not preserved across a context switch (pattern %#" PRIx64 ")", me, regname(shim_bad), pat);
         shim_bad = 0;
@@ -106,7 +110,9 @@ static void do_exit_switch(int me, void *v)
 {
     const int t = co[me].parent;
     co[me].status = ST_FINISHED; co[me].exitv = v; co[me].depth = 0;
-    co[t].caller = me;
+    switch_kind = 2;
+    /* the parent's caller stays what it was: a coroutine that ends has not resumed its parent, and the parent's next yield still
+     * answers whoever resumed the parent */
     expect_target = t; expect_msg = v; expect_entry = false; cur = t;
 }
 
@@ -168,7 +174,12 @@ static void interp(int me, int depth)
             if (me == MAINI) continue;
             const int t = co[me].caller;
             if (t < 0 || co[t].status != ST_RUNNING) continue;
-            co[t].caller = me; expect_target = t; expect_msg = msg; expect_entry = false; cur = t;
+            /* a yield answers the resume (start, transfer) that last activated this coroutine; it does not make the yielder the
+             * caller of its target: with A resuming B and B resuming C, C's yield returns to B and B's next yield to A */
+            expect_target = t; expect_msg = msg; expect_entry = false; cur = t;
+            if (me < 64 && in_kind[me] == 1) PROBE("coro.yield_after_being_yielded_to");
+            if (me < 64 && in_kind[me] == 2) PROBE("coro.yield_after_a_started_coroutine_ended");
+            switch_kind = 1;
             TR3("yield", me, t, at);
             got = switch_shim(w_yield, msg, NULL, pat); switched = true;
         } else if (pis(l, "RETURN") || pis(l, "EXIT")) {
@@ -250,6 +261,8 @@ void *coro_body_c(struct cmi_coroutine *cp, void *ctx)
     if (shim_bad) shim_bad = 0;
     co[me].csr = _mm_getcsr() & ~0x3fu;          /* a fresh coroutine gets the library's initial word */
     cur = me;
+    if (me >= 0 && me < 64) in_kind[me] = 0;
+    switch_kind = 0;
     check_model("start");
     TR1("entry", me);
     interp(me, 0);
